@@ -506,6 +506,7 @@ def main():
         "distribution": {"kinds": kinds, "compound": nc, "topoart_histories_ending_with_no_category": n_empty, "boundary_hyper_parameter_cases": n_bound, "elementary_modules_inside_wrappers": n_nested}, "samples": reps[:1]})
     v.assumptions = ["overflow / underflow / cancellation-induced sqrt of a tiny negative are binary64 phenomena the exact model cannot exhibit (watched on the implementation only)",
                      "third-party routines (np.linalg, sklearn validation) are exercised, not modelled beyond Mat.v"]
+    v.cov["added_after_wave_7"] = 'fits of 2-3 epochs: all eight elementary modules, CVIART (three indices), iCVIFuzzyART, TopoART, DualVigilanceART, SimpleARTMAP, FusionART; vigilance 0 .. 1 (one sample per category); separated / grid / duplicated data'
     sys.exit(v.finish())
 
 
